@@ -259,6 +259,19 @@ func (m *c05Mon) After(w *world.World, op world.Op, res world.Res, pre interface
 	if res.Root.Size != p.c.Size || res.Root.Height != p.height || res.Root.BranchFactor != p.bf {
 		diffs = append(diffs, "root-record")
 	}
+	if len(diffs) == 0 && w.Cfg.Format == ref.FormatMarshaler && !w.Cfg.Tagged && !w.Cfg.RegisteredTypes {
+		// a root written down by an older release carries no NodeFormat: it is a v1marshaler tree and loads as such
+		legacy := *res.Root
+		legacy.NodeFormat = ""
+		var lt *mast.Mast
+		r := guardRes(func() (err error) { lt, err = legacy.LoadMast(ctx, w.RemoteConfig(w.Store, false)); return })
+		if r.Err != nil || r.Panic != nil {
+			return []explore.Finding{{Sig: "C05|legacy-root-without-NodeFormat|reload-failed|" + resClass(r), What: "loading the same root with an empty NodeFormat (as older releases wrote it) failed", Detail: r.String(), Block: true}}
+		}
+		if lg := w.ReadContents(lt); !lg.Equal(p.c) {
+			return []explore.Finding{{Sig: "C05|legacy-root-without-NodeFormat|differs|" + report.Norm(lg.Bad), What: "the same root with an empty NodeFormat loads to different contents", Detail: fmt.Sprintf("persisted %v loaded %v", p.c, lg), Block: true}}
+		}
+	}
 	if len(diffs) == 0 {
 		return nil
 	}
@@ -543,6 +556,17 @@ func (m *c16Mon) After(w *world.World, op world.Op, res world.Res, pre interface
 	case world.OpReload, world.OpReloadJSON:
 		if f := chk("MakeRoot", loads, 2*(h+1)*len(w.Cfg.Keys), ""); f != nil {
 			return f
+		}
+		if w.Cfg.Format == ref.FormatMarshaler && res.Root != nil && !w.Cfg.Tagged && !w.Cfg.RegisteredTypes {
+			// opening the version through a root without NodeFormat (older releases) reads the top node once, too
+			legacy := *res.Root
+			legacy.NodeFormat = ""
+			w.Store.ResetLog()
+			if r := guardRes(func() error { _, err := legacy.LoadMast(ctx, w.RemoteConfig(w.Store, false)); return err }); r.Err == nil && r.Panic == nil {
+				if f := chk("LoadMast(root without NodeFormat)", len(w.Store.Calls("load")), 1, ""); f != nil {
+					return f
+				}
+			}
 		}
 		return chk("LoadMast", world.Count(res.AuxCalls, "load"), 1, "")
 	case world.OpLoad, world.OpLoadNoCache:
